@@ -39,7 +39,8 @@ def gen_case(rng, tier):
         gene = {"kind": "world", "world": SL.gen_stage_world(rng, n_variants=rng.choice([4, 5, 6]))}
     else:
         gene = {"kind": "shipped", "name": rng.choice(cfg["shipped"]), "genome": "hg19"}
-    return {"gene": gene, "seed": rng.randint(0, 10**9), "mode": rng.choice(["planted", "planted", "noisy", "noisy", "wild", "edited", "edited", "homozygous"]),
+    return {"gene": gene, "seed": rng.randint(0, 10**9), "mode": rng.choice(["planted", "planted", "noisy", "noisy", "wild", "edited", "edited", "homozygous",
+                                "mismatch", "mismatch"]),
             "depth": rng.choice([10, 20]), "max_copies": rng.choice([1, 2, 2, 3]), "phase": rng.random() < 0.3}
 
 
@@ -372,6 +373,15 @@ def run_case(case, seg, viol, stats, sample):
     elif mode == "noisy":
         table = SL.planted_table(gene, planted, case["depth"], rng, noise=rng.choice([0.1, 0.25, 0.4]),
                                  extra_noise=rng.choice([0, 1, 2]))
+    elif mode == "mismatch":
+        # the evidence comes from other haplotypes than the major solution claims ("for any evidence and
+        # any major solution"): core variants of a called allele may have little or no support
+        other = SL.random_planted(rng, gene, cn) or planted
+        table = SL.planted_table(gene, other, case["depth"], rng, noise=0.2, extra_noise=rng.choice([0, 1, 3]))
+        for ma, mi in planted:
+            for m in gene.alleles[ma].func_muts:
+                if rng.random() < 0.5:
+                    table.setdefault(m.pos, {})[m.op] = max(table.get(m.pos, {}).get(m.op, 0), rng.randint(2, case["depth"]))
     else:
         table = SL.planted_table(gene, planted, case["depth"], rng, noise=0.5, extra_noise=rng.randint(2, 5))
     phases = None
